@@ -133,6 +133,20 @@ def run(ctx):
     for i in range(n):
         f = dslgen.gen_file(rng, modular=False, hostile=0.3, max_types=4, max_rels=5, depth=4)
         docs.append(dslgen.render_file(f, dslgen.Layout(rng, wild=rng.choice([0.0, 0.3]))))
+    # names that differ only in the case of their letters (types, relations, conditions, parameters): an order that
+    # ignores case ties on them, and a tie is broken by Go's map order - the rendering stops being byte-stable
+    for i in range(12 if ctx.tier == "quick" else 200):
+        pairs = rng.sample([("limit", "Limit"), ("in_window", "In_Window"), ("c1", "C1"), ("valid", "VALID")], 2)
+        rels = rng.sample([("viewer", "Viewer"), ("editor", "EDITOR"), ("owner", "Owner")], 2)
+        lines = ["model", "  schema 1.1", "type user", "type User", "type doc", "  relations"]
+        for a, b in rels:
+            lines.append("    define %s: [user, User with %s, user with %s]" % (a, pairs[0][0], pairs[0][1]))
+            lines.append("    define %s: [User with %s] or %s" % (b, pairs[1][rng.randint(0, 1)], a))
+        rng.shuffle(lines[6:])
+        for a, b in pairs:
+            for nm in rng.sample([a, b], 2):
+                lines += ["condition %s(x: int, X: string) {" % nm, "  x < %d" % rng.randint(1, 9), "}"]
+        docs.append("\n".join(lines) + "\n")
     check_docs(ctx, docs, "docs")
 
 
